@@ -5111,7 +5111,14 @@ class TensorDictBase(MutableMapping):
                         cls = cls.__name__
                     else:
                         pass
-                    metadata_dict_key = metadata_dict[key] = {
+                    # a nested tensordict is stored next to the fields of its parent's metadata:
+                    # a key that is one of these field names is escaped (the readers strip the marker)
+                    metadata_key = (
+                        "<TD>" + key
+                        if key in ("cls", "non_tensors", "leaves", "cls_metadata", "size")
+                        else key
+                    )
+                    metadata_dict_key = metadata_dict[metadata_key] = {
                         "cls": cls,
                         "non_tensors": {},
                         "leaves": {},
